@@ -64,11 +64,50 @@ def case_strategy(draw):
     return case
 
 
+@st.composite
+def many_case(draw):
+    """Semantic maps with up to 300 one-voxel components per side: the instance count, not the label value,
+    decides the width the approximated maps need."""
+    return {"many": True, "n_ref": draw(st.sampled_from([3, 200, 254, 255, 256, 257, 300])), "n_match": draw(st.integers(0, 300)), "n_unmatched": draw(st.sampled_from([0, 1, 2, 60, 300])),
+            "label": draw(st.sampled_from([1, 1, 3, 200, 255])), "dtype": draw(st.sampled_from(["uint8", "uint8", "int16"])),
+            "label2": draw(st.sampled_from([1, 2, 255, 256, 1000, 65535, 70000])), "dtype2": draw(st.sampled_from(["uint8", "uint16", "int32", "uint32", "int64", "uint64"])),
+            "backend": draw(st.sampled_from([None, "cc3d", "scipy"]))}
+
+
 def searches(tier):
-    return [("relabel", case_strategy(), BUDGET[tier])]
+    return [("relabel", case_strategy(), BUDGET[tier]), ("many_components", many_case(), max(6, BUDGET[tier] // 25))]
+
+
+def check_many(case, stats):
+    n_ref, n_match, n_un = case["n_ref"], min(case["n_match"], case["n_ref"]), case["n_unmatched"]
+    L = 4 * max(n_ref, n_un) + 4
+    ref = np.zeros(L, dtype=np.int64)
+    pred = np.zeros(L, dtype=np.int64)
+    ref[0:4 * n_ref:4] = 1
+    pred[0:4 * n_match:4] = 1
+    pred[2:4 * n_un + 2:4] = 1
+    lab2 = case["label2"]
+    if np.dtype(case["dtype2"]).kind in "ui" and lab2 > np.iinfo(case["dtype2"]).max:
+        lab2 = int(np.iinfo(case["dtype2"]).max)
+    cfg = {"input": "SEMANTIC", "backend": case["backend"], "matcher": {"kind": "naive", "metric": "IOU", "thr": 0.5, "m2o": False}, "imetrics": ["DSC", "IOU"], "gmetrics": ["DSC"]}
+    stats.record(case, n_match > 0 and max(n_ref, n_match + n_un) > 255, ["many_components", f"dtype2={case['dtype2']}", "more_than_255_components" if max(n_ref, n_match + n_un) > 255 else "at_most_255_components"])
+    obs = []
+    for lab, dt in ((case["label"], case["dtype"]), (lab2, case["dtype2"])):
+        p, r = (pred * lab).astype(dt), (ref * lab).astype(dt)
+        obs.append(meta.observe(H.lib_call(lib.evaluator(cfg).evaluate, p, r)["ungrouped"][0]))
+    d = obs[0]["dict"]
+    want = {"num_ref_instances": n_ref, "num_pred_instances": n_match + n_un, "tp": n_match}
+    for k, v in want.items():
+        if d.get(k) != v:
+            raise Violation(f"{n_ref} reference and {n_match}+{n_un} prediction components (label {case['label']}, {case['dtype']}): {k}={d.get(k)}, expected {v}")
+    msg = meta.diff(obs[0], obs[1])
+    if msg:
+        raise Violation(f"result changes when the semantic label {case['label']} ({case['dtype']}) becomes {lab2} ({case['dtype2']}) with {n_ref}/{n_match + n_un} components: {msg}")
 
 
 def check(case, stats):
+    if case.get("many"):
+        return check_many(case, stats)
     lib.run_primes(case.get("primes"))
     pred, ref, cfg = c01.resolve(case)
     cfg["gmetrics"] = case.get("gmetrics", [])
